@@ -213,11 +213,14 @@ def r2(ctx):
             # constant propagation of witness datagrams through match(): every datagram in the vendor response format must be
             # accepted (names with commas, empty names, long names included); what else it accepts is decided by decode()
             ident = s["rid"].strip(b",")
+            long_host = b"airtouch-console-living-room.home.example.net"
+            long_serial = b"E" + b"0123456789" * 4
             if gen == "at4":
-                valid = [b"192.168.1.2,AA:BB:CC:DD:EE:FF," + ident + b",23236426", b"10.0.0.7,0," + ident + b",1"]
+                valid = [b"192.168.1.2,AA:BB:CC:DD:EE:FF," + ident + b",23236426", b"10.0.0.7,0," + ident + b",1", long_host + b"," + long_serial + b"," + ident + b",7"]
             else:
                 valid = [b"192.168.1.2,E123456," + ident + b",1000,Home", b"192.168.1.2,E123456," + ident + b",1000,Beach house, upstairs",
-                         b"10.0.0.7,0," + ident + b",1,", b"10.0.0.7,0," + ident + b",1,a,b,c,d,e", b"10.0.0.7,0," + ident + b",1," + "caf\u00e9".encode()]
+                         b"10.0.0.7,0," + ident + b",1,", b"10.0.0.7,0," + ident + b",1,a,b,c,d,e", b"10.0.0.7,0," + ident + b",1," + "caf\u00e9".encode(),
+                         long_host + b"," + long_serial + b"," + ident + b",1000,Home", b"255.255.255.255," + long_serial + b"," + ident + b",1," + b"n" * 200]
             rows = []
             for w in valid:
                 try:
@@ -303,6 +306,17 @@ def r4(ctx):
         targets = [g.nodes[s] for lbl, s in n.succ if lbl == "exc"]
         ok = any(h.kind == "handler" and any(t.split(".")[-1] in ("DecodeError", "Exception") for t in h.meta["types"]) for h in targets)
         ctx.check(ok, R, "datagram_received:decode-errors-caught", m, c, "DecodeError from decode() is caught (a malformed datagram does not abort the search)", "not caught")
+    # each datagram is judged on its own: the handler keeps no memory of earlier datagrams (no sender black-list, no counters),
+    # so a malformed datagram cannot make a later well-formed answer of the same console disappear
+    stores = []
+    for x in walk_no_nested(f.node):
+        if isinstance(x, (ast.Assign, ast.AugAssign, ast.AnnAssign)):
+            for t_ in (x.targets if isinstance(x, ast.Assign) else [x.target]):
+                if (dotted(t_) or "").startswith("self.") or (isinstance(t_, ast.Subscript) and (dotted(t_.value) or "").startswith("self.")):
+                    stores.append(x)
+        elif isinstance(x, ast.Call) and isinstance(x.func, ast.Attribute) and x.func.attr in ("add", "append", "update", "extend", "setdefault", "insert") and (dotted(x.func.value) or "").startswith("self.") and "task" not in (dotted(x.func.value) or "").lower():
+            stores.append(x)
+    ctx.check(not stores, R, "datagram_received:keeps-no-state", m, (stores[0] if stores else f.node), "datagram_received stores nothing but the handle of the callback task: every datagram is decided on its own content", f"`{norm_text(stores[0])[:70]}` at line {stores[0].lineno}" if stores else "")
     tasks = f.calls("create_task")
     it = f.tests(lambda e: isinstance(e, ast.Call) and dotted(e.func) == "isinstance" and len(e.args) == 2 and dotted(e.args[1]) == "self._response_type")
     ok = bool(tasks) and bool(it) and all(g.dominates(f.branch(t, "true").id, n.id) for t in it for n, _ in tasks)
